@@ -69,6 +69,15 @@ def extract_atom(
     if expression.func == Symbol:
         return f"{symbols_map[expression]}"
 
+    if expression.is_Rational:
+        # exact fractions (e.g., the 1/2 in x/2) are printed like any other decimal number.
+        return extract_atom(
+            Float(expression),
+            symbols_map,
+            decimal_digits,
+            should_remove_trailing_zeros,
+        )
+
     raise ValueError(f"Unsupported atomic expression: {expression}")
 
 
@@ -114,7 +123,7 @@ def _convert_internal_expression_to_pddl(
     if isinstance(expression, Pow) and expression.exp == -1:
         pddl_expression = _convert_internal_expression_to_pddl(
             expression.base,
-            SYMPY_OP_TO_PDDL_OP[expression.base.func],
+            SYMPY_OP_TO_PDDL_OP.get(expression.base.func, ""),
             symbols_map,
             decimal_digits,
             should_remove_trailing_zeros,
@@ -129,7 +138,7 @@ def _convert_internal_expression_to_pddl(
     for i in range(len(expression.args)):
         comp = _convert_internal_expression_to_pddl(
             expression.args[i],
-            SYMPY_OP_TO_PDDL_OP[expression.args[i].func],
+            SYMPY_OP_TO_PDDL_OP.get(expression.args[i].func, ""),
             symbols_map,
             decimal_digits,
             should_remove_trailing_zeros,
@@ -170,7 +179,7 @@ def convert_expr_to_pddl(
     :param should_remove_trailing_zeros: whether to remove trailing zeros or not.
     :return: the PDDL expression.
     """
-    initial_operator = SYMPY_OP_TO_PDDL_OP[expr.func]
+    initial_operator = SYMPY_OP_TO_PDDL_OP.get(expr.func, "")
     return _convert_internal_expression_to_pddl(
         expr,
         initial_operator,
